@@ -621,8 +621,10 @@ type c07VarCase struct {
 	Batch   bool          `json:"batch"` // both messages in one Walk / one Walk per message
 }
 
-var c07VarMsgs = []interface{}{M{"a": "?x"}, M{"a": "?y"}, M{"a": "??x"}, M{"a": "?<x"}, M{"a": "?"}, "?x", M{"?x": 1.0}, M{"a": M{"b": "?x"}}, M{"a": []interface{}{"?x"}}, M{"a": 1.0}, M{"a": "?x", "b": "?y"}, M{"a": "?y", "b": "?x"}}
-var c07VarPatterns = []interface{}{M{"a": "?x"}, "?x", M{"a": "?x", "b": "?y"}, M{"a": M{"b": "?x"}}, M{"a": []interface{}{"?x"}}, M{"?x": "?y"}, M{"a": "??x"}}
+var c07VarMsgs = []interface{}{M{"a": "?x"}, M{"a": "?y"}, M{"a": "??x"}, M{"a": "?<x"}, M{"a": "?"}, "?x", M{"?x": 1.0}, M{"a": M{"b": "?x"}}, M{"a": []interface{}{"?x"}}, M{"a": 1.0}, M{"a": "?x", "b": "?y"}, M{"a": "?y", "b": "?x"}, M{"a": 3.0}, M{"a": 5.0}}
+var c07VarPatterns = []interface{}{M{"a": "?x"}, "?x", M{"a": "?x", "b": "?y"}, M{"a": M{"b": "?x"}}, M{"a": []interface{}{"?x"}}, M{"?x": "?y"}, M{"a": "??x"},
+	// variables whose whole name is an operator
+	M{"a": "?<"}, M{"a": "?>"}, M{"a": "?!"}, M{"a": "?<="}, M{"a": "?!="}, M{"a": "?="}}
 
 func c07VarOne(c *vh.Ctx, cs c07VarCase) {
 	c.InFlight(cs)
